@@ -45,9 +45,9 @@ def main():
         'setup_cmd': './check --selftest',
         'hooks': {
             'guard': 'emmyluals_emmylua_analyzer_rust_verif',
-            'enable': 'RUSTFLAGS="--cfg emmyluals_emmylua_analyzer_rust_verif" (no hook exists: the contracts read source text, the Kani/replay crates use public API by path dependency)',
+            'enable': 'RUSTFLAGS="--cfg emmyluals_emmylua_analyzer_rust_verif" (set in replay/c25/.cargo/config.toml). One hook: emmylua_ls::verif_hooks re-exports the synchronous handler entry points for the bounded search of C25; the Verus units read source text and need no hook; the other replay/Kani crates use public API',
             'baseline_off_cmd': 'cd /repo && cargo nextest run --workspace --no-fail-fast --test-threads 8 --offline || cargo test --workspace --no-fail-fast --offline',
-            'source_commits': [],
+            'source_commits': ['16c6446'],
             'add_only': True,
         },
         'engines': [
